@@ -10,6 +10,7 @@
 import AisVerif.Props.C06
 import AisVerif.Lemmas.Inv
 import AisVerif.Lemmas.Armor
+import AisVerif.Lemmas.Render
 
 namespace AisVerif.C05
 open AisVerif Spec
@@ -261,15 +262,6 @@ theorem in_order_reassembly_with_noise (cfg : Cfg) (dec : Bool) (st : PState) (i
   exact ⟨rfl, rfl⟩
 
 /-! ### From bytes to a line and back: the unfragmented reference, end to end -/
-
-def hexDigitChar (d : Nat) : UInt8 := if d < 10 then UInt8.ofNat (48 + d) else UInt8.ofNat (55 + d)
-
-/-- A byte as two upper-case hexadecimal digits. -/
-def hex2 (n : Nat) : Bytes := [hexDigitChar (n / 16), hexDigitChar (n % 16)]
-
-theorem hex2_spec : ∀ c : Fin 256,
-    (hex2 c.val).takeWhile isHexDigit = hex2 c.val ∧ hexVal ((hex2 c.val).take 8) = c.val := by
-  decide +kernel
 
 /-- The body `AIVDM,1,1,,A,<payload>,<fill>`. -/
 def unfragBody (payload : Bytes) (fill : Nat) : Body :=
